@@ -73,6 +73,18 @@ pub fn main(args: &[String]) {
 		}
 		finish(rest);
 	}
+	if let Some(rest) = reply.strip_prefix("fill|") {
+		// "fill|exit:<n>": when the file the hook was called for does not exist yet, the hook creates it holding 30 kB of its own
+		// (a pre-create hook that prepares the file from a template); for existing files and hooks without a file nothing is done
+		if let Some(path) = args.iter().find_map(|a| a.strip_prefix("file_path=")) {
+			if !path.is_empty() {
+				if let Ok(mut f) = std::fs::OpenOptions::new().write(true).create_new(true).open(path) {
+					let _ = f.write_all("# prepared by a hook\n".repeat(1500).as_bytes());
+				}
+			}
+		}
+		finish(rest);
+	}
 	finish(reply);
 }
 
